@@ -3,9 +3,12 @@ from c12_surfaces_part import SURF_PROP
 
 ID = "C12"
 PROP = {
-    "modules": ["Gnmi.Props.C12"] + SURF_PROP["modules"],
+    "modules": ["Gnmi.Props.C12", "Gnmi.Props.C12Meta"] + SURF_PROP["modules"],
     "theorems": ["Gnmi.C12." + t for t in [
-        "ingest_total", "ingest_keeps_invariant", "updateMetadata_total", "rejected_preserves", "unknown_target_rejected"]] + SURF_PROP["theorems"],
+        "ingest_total", "ingest_keeps_invariant", "updateMetadata_total", "rejected_preserves", "unknown_target_rejected",
+        "meta_refresh_no_panic", "panics_false", "genMetaOne_call_no_panic", "updateMetaP_no_panic", "resetP_no_panic",
+        "updateMetadataP_no_panic", "sync_no_panic", "connect_no_panic", "connectError_no_panic",
+        "generateMetaUpdatesP_fst", "updateMetaP_fst", "resetP_fst", "updateMetadataP_fst", "panics_update_iff"]] + SURF_PROP["theorems"],
     "components": [ca_component("c12", 2500, 30000)] + SURF_PROP["components"],
     "extra": SURF_PROP["extra"],
     "monitor": "spec", "level": "proof",
@@ -17,6 +20,10 @@ PROP = {
                       "(empty/root paths, meta-addressed paths, absent values, wildcards on an empty cache, type changes), updateMetadata_total for the "
                       "periodic refresh, rejected_preserves (a rejected unit leaves the tree intact). The model is tied to the code by the ca "
                       "correspondence driven by the malformed stream (observation `panic` on either side is a divergence). "
+                      "Props/C12Meta.lean: the metadata-writing calls (Sync, Connect, ConnectError, Reset, UpdateMetadata), whose inner "
+                      "gnmiUpdate result class State.step/genMetaOne drop, are re-observed with the class kept (generateMetaUpdatesP etc., "
+                      "proved equal to the existing functions in state and events) and meta_refresh_no_panic proves no inner call reaches "
+                      "the panic outcome in any reachable state. "
                       + SURF_PROP["level_text_part"],
         "level_note": "Trusted: Lean kernel; model validated by the ca correspondence; protobuf decoding. Subscribe-handler, client-receive, "
                       "CLI-display and manager surfaces: Props/C12Surfaces.lean over Model/RecvSurfaces.lean, tied by the rx correspondence "
